@@ -23,6 +23,11 @@ RULE = ('fault enumeration: method(5) x session state named by the request(9: '
         'negative / missing Content-Length, oversize) x transport parameter(3) '
         'x JSONP(3) x server(2), plus the API calls send / disconnect(sid) / '
         'disconnect() in every session state including an empty server; plus '
+        'requests with unusual but legal headers / query strings / framing '
+        '(undecodable header bytes and query bytes, duplicated headers, body '
+        'in several ASGI chunks, no query, 64 kB header, odd Accept-Encoding, '
+        'lower-case method, no Host, CORS request headers, ASGI client gone '
+        'before the body was read) x method x state; plus '
         'the same requests / calls issued at seeded points of generated '
         'session histories under random schedules. '
         'thorough = all cells; quick = seeded sample + all API cells. '
@@ -35,7 +40,7 @@ ASSUMPTIONS = ['a long-poll may legitimately take ping_interval+ping_timeout; '
                'oracle (statement: non-upgrade requests)']
 REQUIRED = ['request_completion', 'status_set', 'gateway_protocol',
             'api_completion', 'background_exceptions', 'wsgi_validator',
-            'history_probes']
+            'history_probes', 'odd_requests']
 SHARD_TIMEOUT = {'quick': 500, 'thorough': 3400}
 
 METHODS = ['GET', 'POST', 'OPTIONS', 'PUT', 'DELETE']
@@ -195,6 +200,131 @@ def run_req(rec, case):
         sim.teardown()
 
 
+ODD = ['bad-utf8-header', 'bad-utf8-query', 'dup-header', 'chunked-body',
+       'no-query', 'huge-header', 'odd-accept-encoding', 'lowercase-method',
+       'no-host', 'origin-and-cors-request-headers', 'encoded-path',
+       'client-gone-before-body']
+
+
+def run_odd(rec, case):
+    """Requests whose headers / query string / framing are unusual but legal
+    at the gateway boundary."""
+    iodd, im, ist, isrv = case['odd']
+    odd, method, state, srv = ODD[iodd], METHODS[im], STATES[ist], SRV[isrv]
+    rec.evaluations += 1
+    rec.count('odd_requests')
+    rec.key('odd/' + ','.join(map(str, case['odd'])))
+    sim = scen.make_sim(srv, server_kwargs={
+        'max_http_buffer_size': 1000, 'ping_interval': PI,
+        'ping_timeout': PT})
+    desc = 'ODD %s %s state=%s server=%s' % (odd, method, state, srv)
+
+    def V(key, msg):
+        rec.viol(key, msg + ' | ' + desc, case)
+    try:
+        sid, keep = prepare(sim, state)
+        q = {'transport': 'polling', 'EIO': '4'}
+        if sid is not None:
+            q['sid'] = sid
+        headers, kw = {}, {}
+        body = b'4hello' if method in ('POST', 'PUT') else None
+        if odd == 'bad-utf8-header':
+            if srv == 'T':
+                headers['X-Odd'] = '\xff\xfe\x80'
+            else:
+                kw['scope_extra_headers'] = [(b'x-odd', b'\xff\xfe\x80'),
+                                             (b'\xff-name', b'v')]
+        elif odd == 'bad-utf8-query':
+            if srv == 'T':
+                kw['env_override'] = {
+                    'QUERY_STRING': sim.qs(q) + '&x=\xff%FF%zz'}
+            else:
+                kw['scope_override'] = {
+                    'query_string': sim.qs(q).encode() + b'&x=\xff%FF%zz'}
+        elif odd == 'dup-header':
+            if srv == 'T':
+                headers['X-Dup'] = '1,2'
+                headers['Cookie'] = 'a=1; io=zzz'
+            else:
+                kw['scope_extra_headers'] = [(b'x-dup', b'1'), (b'x-dup', b'2'),
+                                             (b'cookie', b'a=1'),
+                                             (b'cookie', b'io=zzz')]
+        elif odd == 'chunked-body':
+            if srv == 'A':
+                sim.body_chunks = 3
+            body = b'4hello\x1e4world' if body is not None else None
+        elif odd == 'no-query':
+            if srv == 'T':
+                kw['env_override'] = {'QUERY_STRING': ''}
+            else:
+                kw['scope_override'] = {'query_string': b''}
+        elif odd == 'huge-header':
+            headers['X-Big'] = 'v' * 65536
+        elif odd == 'odd-accept-encoding':
+            headers['Accept-Encoding'] = 'gzip;q=abc, ,;, deflate;q='
+        elif odd == 'lowercase-method':
+            if srv == 'T':
+                kw['env_override'] = {'REQUEST_METHOD': method.lower()}
+            else:
+                kw['scope_override'] = {'method': method.lower()}
+        elif odd == 'no-host':
+            headers['Host'] = None
+        elif odd == 'origin-and-cors-request-headers':
+            headers['Origin'] = 'http://srv.test'
+            headers['Access-Control-Request-Headers'] = 'x-a, x-b'
+            headers['Access-Control-Request-Method'] = 'POST'
+        elif odd == 'client-gone-before-body':
+            # ASGI: the first receive() yields http.disconnect. Nobody is
+            # left to answer; the application must still return normally
+            if srv == 'T':
+                return
+            sim.client_gone_early = True
+        elif odd == 'encoded-path':
+            kw['path'] = '/engine.io/%2e%2e/x'
+        if srv == 'A' and 'scope_extra_headers' in kw:
+            extra = kw.pop('scope_extra_headers')
+            base = sim.scope(method, q, headers, None, body=body)
+            kw['scope_override'] = dict(kw.get('scope_override', {}),
+                                        headers=base['headers'] + extra)
+        kw.pop('scope_extra_headers', None)
+        if body is not None:
+            kw['body'] = body
+        t = sim.request(method, q, headers, **kw)
+        sim.quiesce()
+        rec.count('request_completion')
+        if not t.done:
+            sig = scen.hang_signature(sim, t)
+            if method == 'GET' and sig == 'not-hung':
+                sim.advance(PI + PT + 0.01)
+            if not t.done:
+                V(sig if sig != 'not-hung' else 'poll-overdue',
+                  'request did not complete: worker blocked in %s' % sig)
+                return
+        if t.exc is not None:
+            V('request-raises-%s' % type(t.exc).__name__,
+              'exception escaped the gateway application: %r %s' % (
+                  t.exc, getattr(t, 'exc_tb', '')[-300:]))
+            return
+        if odd == 'client-gone-before-body' and t.status is None:
+            rec.count('gateway_protocol')
+            if t.proto:
+                V('gateway-protocol', 'gateway protocol violated: %r' % (
+                    t.proto[:3],))
+            return
+        rec.count('status_set')
+        # (a path that is not the endpoint may be answered 404 by the gateway)
+        if t.code not in (200, 400, 401, 405) and not (
+                odd == 'encoded-path' and t.code == 404):
+            V('status-outside-set', 'status %r' % (t.status,))
+        rec.count('gateway_protocol')
+        if t.proto:
+            V('gateway-protocol', 'gateway protocol violated: %r' % (
+                t.proto[:3],))
+        judge_background(rec, sim, V)
+    finally:
+        sim.teardown()
+
+
 def run_api(rec, case):
     call, state, srv = case['api']
     rec.evaluations += 1
@@ -348,6 +478,8 @@ def run_hist(rec, case):
 def dispatch(rec, case):
     if 'api' in case:
         run_api(rec, case)
+    elif 'odd' in case:
+        run_odd(rec, case)
     elif 'i' in case:
         run_hist(rec, case)
     else:
@@ -369,6 +501,12 @@ def plan(tier, seed):
         for st in API_STATES:
             for srv in SRV:
                 cases.append({'api': [call, st, srv]})
+    for iodd in range(len(ODD)):
+        for im in range(len(METHODS)):
+            for ist in (0, 1, 2, 3, 5):
+                for isrv in (0, 1):
+                    if tier == 'thorough' or rng.random() < 0.35:
+                        cases.append({'odd': [iodd, im, ist, isrv]})
     for k in range(40000 if tier == 'thorough' else 600):
         cases.append({'seed': seed, 'i': k})
     rng.shuffle(cases)
